@@ -13,6 +13,9 @@
 (*  Release(name)            Manager.Release                                *)
 (*  Probe(ok)                afterwards a fresh transaction wrote and read  *)
 (*                           every name                                     *)
+(* t = the transaction, g = the goroutine that runs the access (g = t when  *)
+(* a transaction runs its accesses one after the other; the write pipeline  *)
+(* runs one stage per index on one transaction: several g per t).           *)
 (*  Stuck                    some access or commit did not return           *)
 (***************************************************************************)
 EXTENDS Integers, Sequences, FiniteSets, TLC, Json
@@ -22,9 +25,9 @@ Trace == ndJsonDeserialize(TraceFile)
 
 VARIABLES l,
           owner,     \* obj -> tx that wrote it and has not committed yet
-          inCb,      \* tx -> obj whose callback it is running
+          inCb,      \* goroutine (access) -> [obj, t]: the callback it is running, for which transaction
           scrapAt,   \* obj -> line at which it was discarded by a failure
-          startAt,   \* tx -> line of its latest WithStart
+          startAt,   \* goroutine (access) -> line of its WithStart
           wrote,     \* tx -> set of objects it wrote in this transaction
           dead,      \* objects written by a transaction whose abort has returned
           kf
@@ -42,7 +45,7 @@ Get(f, k, d) == IF k \in DOMAIN f THEN f[k] ELSE d
 TNew == IsEvent("NewBehaviour") /\ owner' = Empty /\ inCb' = Empty /\ scrapAt' = Empty /\ startAt' = Empty
         /\ wrote' = Empty /\ dead' = {} /\ UNCHANGED kf
 
-TWithStart == IsEvent("WithStart") /\ startAt' = Put(startAt, E.t, l) /\ UNCHANGED <<owner, inCb, scrapAt, wrote, dead, kf>>
+TWithStart == IsEvent("WithStart") /\ startAt' = Put(startAt, E.g, l) /\ UNCHANGED <<owner, inCb, scrapAt, wrote, dead, kf>>
 TCreated   == IsEvent("Created") /\ UNCHANGED <<owner, inCb, scrapAt, startAt, wrote, dead, kf>>
 TRelease   == IsEvent("Release") /\ UNCHANGED <<owner, inCb, scrapAt, startAt, wrote, dead, kf>>
 
@@ -52,20 +55,20 @@ TRelease   == IsEvent("Release") /\ UNCHANGED <<owner, inCb, scrapAt, startAt, w
 TCbEnter ==
   /\ IsEvent("CbEnter")
   /\ Get(owner, E.obj, E.t) = E.t
-  /\ (E.ro = 0 => \A u \in DOMAIN inCb : inCb[u] = E.obj => u = E.t)
-  /\ (E.obj \in DOMAIN scrapAt => scrapAt[E.obj] > Get(startAt, E.t, 0))
+  /\ (E.ro = 0 => \A u \in DOMAIN inCb : inCb[u].obj = E.obj => inCb[u].t = E.t)
+  /\ (E.obj \in DOMAIN scrapAt => scrapAt[E.obj] > Get(startAt, E.g, 0))
   \* once the abort of the transaction that wrote it has returned, the object is never handed out again
   \* (not even to an access that had looked it up before)
   /\ E.obj \notin dead
-  /\ inCb' = Put(inCb, E.t, E.obj)
+  /\ inCb' = Put(inCb, E.g, [obj |-> E.obj, t |-> E.t])
   /\ owner' = IF E.ro = 0 THEN Put(owner, E.obj, E.t) ELSE owner
   /\ wrote' = IF E.ro = 0 THEN Put(wrote, E.t, Get(wrote, E.t, {}) \cup {E.obj}) ELSE wrote
   /\ UNCHANGED <<scrapAt, startAt, dead, kf>>
 
 TCbExit ==
   /\ IsEvent("CbExit")
-  /\ E.t \in DOMAIN inCb /\ inCb[E.t] = E.obj
-  /\ inCb' = Drop(inCb, {E.t})
+  /\ E.g \in DOMAIN inCb /\ inCb[E.g].obj = E.obj
+  /\ inCb' = Drop(inCb, {E.g})
   /\ scrapAt' = IF E.err = 1 /\ E.obj \notin DOMAIN scrapAt THEN Put(scrapAt, E.obj, l) ELSE scrapAt
   /\ UNCHANGED <<owner, startAt, wrote, dead, kf>>
 
